@@ -290,9 +290,48 @@ impl Ctx {
 
 // --- watchdog ---------------------------------------------------------------
 
+/// The watchdog measures the simulated process's own progress, not the host's: the budget is CPU
+/// time (all threads), so a process that is merely starved by other jobs on the machine (load
+/// average in the hundreds was observed while sub-agents were building) is given more wall-clock
+/// time, while one that burns its budget spinning, or sits blocked with no runnable thread and no
+/// CPU progress, is killed. A hard wall-clock cap (30x) bounds everything.
+struct Deadline {
+    next_check: Instant,
+    hard: Instant,
+    budget_ticks: u64,
+    last_ticks: u64,
+    last_check: Instant,
+}
+
 struct Watch {
-    deadlines: HashMap<u32, Instant>,
+    deadlines: HashMap<u32, Deadline>,
     killed: HashMap<u32, bool>,
+}
+
+/// (utime+stime in clock ticks of the whole process, does any thread look runnable?)
+fn proc_progress(pid: u32) -> Option<(u64, bool)> {
+    fn fields(stat: &str) -> Option<Vec<&str>> {
+        // the command name is in parentheses and may contain blanks
+        let rest = &stat[stat.rfind(')')? + 1..];
+        Some(rest.split_ascii_whitespace().collect())
+    }
+    let stat = std::fs::read_to_string(format!("/proc/{pid}/stat")).ok()?;
+    let f = fields(&stat)?;
+    // after the command name: state is field 0, utime 11, stime 12
+    let ticks = f.get(11)?.parse::<u64>().ok()? + f.get(12)?.parse::<u64>().ok()?;
+    let mut runnable = false;
+    if let Ok(rd) = std::fs::read_dir(format!("/proc/{pid}/task")) {
+        for t in rd.flatten() {
+            if let Ok(ts) = std::fs::read_to_string(t.path().join("stat")) {
+                if let Some(tf) = fields(&ts) {
+                    if matches!(tf.first().copied(), Some("R") | Some("D")) {
+                        runnable = true;
+                    }
+                }
+            }
+        }
+    }
+    Some((ticks, runnable))
 }
 
 fn watch() -> &'static Mutex<Watch> {
@@ -302,16 +341,39 @@ fn watch() -> &'static Mutex<Watch> {
             std::thread::sleep(Duration::from_millis(100));
             let mut w = watch().lock().unwrap();
             let now = Instant::now();
-            let expired: Vec<u32> = w
+            let due: Vec<u32> = w
                 .deadlines
                 .iter()
-                .filter(|(_, d)| **d <= now)
+                .filter(|(_, d)| d.next_check <= now)
                 .map(|(p, _)| *p)
                 .collect();
-            for pid in expired {
-                unsafe { libc::kill(pid as i32, libc::SIGKILL) };
-                w.deadlines.remove(&pid);
-                w.killed.insert(pid, true);
+            let tick_hz = unsafe { libc::sysconf(libc::_SC_CLK_TCK) }.max(1) as u64;
+            for pid in due {
+                let d = w.deadlines.get_mut(&pid).unwrap();
+                let kill = match proc_progress(pid) {
+                    None => true,
+                    Some((ticks, runnable)) => {
+                        let stalled = ticks == d.last_ticks
+                            && !runnable
+                            && now.duration_since(d.last_check) >= Duration::from_secs(1);
+                        if ticks >= d.budget_ticks || now >= d.hard || stalled {
+                            true
+                        } else {
+                            // starved, not hung: wait for the rest of its CPU budget (at least 1 s)
+                            let left = (d.budget_ticks - ticks) * 1000 / tick_hz;
+                            d.last_ticks = ticks;
+                            d.last_check = now;
+                            d.next_check = now
+                                + Duration::from_millis(if runnable { left.max(1000) } else { 1000 });
+                            false
+                        }
+                    }
+                };
+                if kill {
+                    unsafe { libc::kill(pid as i32, libc::SIGKILL) };
+                    w.deadlines.remove(&pid);
+                    w.killed.insert(pid, true);
+                }
             }
         });
         Mutex::new(Watch {
@@ -589,11 +651,22 @@ fn exec_once(ctx: &Ctx, dir: &Path, cmd: &Cmd, timeout: Duration) -> Result<Outc
         let lim = libc::rlimit { rlim_cur: 3 << 30, rlim_max: 3 << 30 };
         libc::prlimit(pid as libc::pid_t, libc::RLIMIT_AS, &lim, std::ptr::null_mut());
     }
-    watch()
-        .lock()
-        .unwrap()
-        .deadlines
-        .insert(pid, Instant::now() + timeout);
+    {
+        // 20 ms of allowance per planned entropy response (a vanity candidate costs < 2 ms)
+        let budget = timeout + Duration::from_millis(20 * cmd.entropy.len() as u64);
+        let tick_hz = unsafe { libc::sysconf(libc::_SC_CLK_TCK) }.max(1) as u64;
+        let now = Instant::now();
+        watch().lock().unwrap().deadlines.insert(
+            pid,
+            Deadline {
+                next_check: now + budget,
+                hard: now + budget * 30,
+                budget_ticks: budget.as_millis() as u64 * tick_hz / 1000,
+                last_ticks: 0,
+                last_check: now,
+            },
+        );
+    }
     let st = child.wait().map_err(|e| he(format!("wait: {e}")))?;
     drop(c); // closes our copy of the pipe's read end, so a writer thread cannot block for ever
     if let Some(w) = pipe_writer {
